@@ -428,6 +428,7 @@ func runServers(c *vh.Ctx) {
 	runKeyShareLengths(c, r)
 	runKeyShareAfterHRR(c, r)
 	runHelloChangeAfterHRR(c, r)
+	runStatefulExtsAfterHRR(c, r)
 	runCBCRecords(c, r)
 	runPskConfigs(c, r)
 	runPostHandshake(c, r)
